@@ -312,7 +312,24 @@ fn build_reply(out: &mut Out, rng: &mut Rng, st: &mut Sync, thorough: bool) -> (
 
 /// Labelled answers of every query endpoint (C09: must be identical before and after an upgrade).
 fn observation_vector(st: &Sync, addrs: &[String]) -> Vec<(String, String)> {
-    let net = st.case.network;
+    observation_vector_net(st.case.network, addrs)
+}
+
+/// `pre_upgrade(); post_upgrade(cfg)` with the labelled answers of every query endpoint before and
+/// after (C09). Used by the `sync` and the `ledger` streams.
+pub fn upgrade_op(out: &mut Out, network: Network, addrs: &[String], cfg: Option<SetConfigRequest>) {
+    let text = match &cfg { Some(cfgv) => format!("thr={}", cfgv.stability_threshold.unwrap()), None => "-".into() };
+    let before = observation_vector_net(network, addrs);
+    let r = c::guarded(|| { can::pre_upgrade(); can::post_upgrade(cfg); });
+    let after = observation_vector_net(network, addrs);
+    let same = match before.iter().zip(after.iter()).find(|(a, b)| a.1 != b.1) {
+        None => "same=1:-".to_string(),
+        Some((a, _)) => format!("same=0:{}", a.0),
+    };
+    out.emit(&format!("c upgrade {} {}", text, addrs.join(",")), &format!("{} | {} | {}", if r.is_ok() { "ok" } else { "trap" }, summary(), same));
+}
+
+fn observation_vector_net(net: Network, addrs: &[String]) -> Vec<(String, String)> {
     let mut v = vec![("info".to_string(), c::get_info())];
     for (i, a) in addrs.iter().enumerate() {
         v.push((format!("utxos{}", i), c::get_utxos_all(a, net, &c::Filter::None, None)));
@@ -362,6 +379,8 @@ fn random_fees(rng: &mut Rng) -> Fees {
 fn endpoint_call(out: &mut Out, rng: &mut Rng, st: &Sync) {
     let net = st.case.network;
     let req_net = if rng.chance(1, 6) { *rng.pick(&[Network::Mainnet, Network::Testnet, Network::Regtest]) } else { net };
+    // either spelling of the network (`Regtest` / `regtest`)
+    let (req_net_spelled, req_net_tok) = c::net_spelled(req_net, rng.chance(1, 2));
     let fees = can::with_state(|s| s.fees.clone());
     let ep = *rng.pick(&["get_utxos", "get_utxos_query", "get_balance", "get_balance_query", "get_block_headers", "get_current_fee_percentiles"]);
     let maximum = match ep {
@@ -393,7 +412,7 @@ fn endpoint_call(out: &mut Out, rng: &mut Rng, st: &Sync) {
         "get_utxos" | "get_utxos_query" => {
             let req = ic_btc_interface::GetUtxosRequest {
                 address: addr_text.clone(),
-                network: c::net_in_req(req_net),
+                network: req_net_spelled,
                 filter: Some(ic_btc_interface::UtxosFilterInRequest::MinConfirmations(cc)),
             };
             match c::guarded(|| if ep == "get_utxos" { can::get_utxos(req) } else { can::get_utxos_query(req) }) {
@@ -403,7 +422,7 @@ fn endpoint_call(out: &mut Out, rng: &mut Rng, st: &Sync) {
             }
         }
         "get_balance" | "get_balance_query" => {
-            let req = ic_btc_interface::GetBalanceRequest { address: addr_text.clone(), network: c::net_in_req(req_net), min_confirmations: Some(cc) };
+            let req = ic_btc_interface::GetBalanceRequest { address: addr_text.clone(), network: req_net_spelled, min_confirmations: Some(cc) };
             match c::guarded(|| if ep == "get_balance" { can::get_balance(req) } else { can::get_balance_query(req) }) {
                 Err(m) => format!("trap {}", refusal_kind(&m)),
                 Ok(Ok(v)) => format!("ok {}", v),
@@ -411,7 +430,7 @@ fn endpoint_call(out: &mut Out, rng: &mut Rng, st: &Sync) {
             }
         }
         "get_block_headers" => {
-            let req = ic_btc_interface::GetBlockHeadersRequest { start_height: start, end_height: None, network: c::net_in_req(req_net) };
+            let req = ic_btc_interface::GetBlockHeadersRequest { start_height: start, end_height: None, network: req_net_spelled };
             match c::guarded(|| can::get_block_headers(req)) {
                 Err(m) => format!("trap {}", refusal_kind(&m)),
                 Ok(Ok(r)) => format!("ok {}", r.tip_height),
@@ -419,7 +438,7 @@ fn endpoint_call(out: &mut Out, rng: &mut Rng, st: &Sync) {
             }
         }
         _ => {
-            let req = ic_btc_interface::GetCurrentFeePercentilesRequest { network: c::net_in_req(req_net) };
+            let req = ic_btc_interface::GetCurrentFeePercentilesRequest { network: req_net_spelled };
             match c::guarded(|| can::get_current_fee_percentiles(req)) {
                 Err(m) => format!("trap {}", refusal_kind(&m)),
                 Ok(v) => format!("ok {}", v.len()),
@@ -435,7 +454,7 @@ fn endpoint_call(out: &mut Out, rng: &mut Rng, st: &Sync) {
     let unchanged = before == summary();
     out.count(&format!("call:{}:{}", ep, result.split(' ').next().unwrap()));
     out.emit(
-        &format!("c call {} {} {} {} {} {} {}", ep, c::net_name(req_net), avail, instructions, addr_tok, cc, start),
+        &format!("c call {} {} {} {} {} {} {}", ep, req_net_tok, avail, instructions, addr_tok, cc, start),
         &format!("{} accepted={} unchanged={}", result, accepted, unchanged as u8),
     );
 }
@@ -456,7 +475,8 @@ fn refusal_kind(msg: &str) -> &'static str {
 
 fn send_tx(out: &mut Out, rng: &mut Rng, st: &Sync) {
     let net = st.case.network;
-    let req_net = if rng.chance(1, 8) { Network::Mainnet } else { net };
+    let req_net = if rng.chance(1, 6) { *rng.pick(&[Network::Mainnet, Network::Testnet]) } else { net };
+    let (req_net_spelled, req_net_tok) = c::net_spelled(req_net, rng.chance(1, 2));
     // payload: a real transaction of some node, possibly truncated / extended / flipped
     let k = rng.below(st.case.world.nodes.len() as u64) as usize;
     let txs = &st.case.world.nodes[k].block.internal_bitcoin_block().txdata;
@@ -477,7 +497,7 @@ fn send_tx(out: &mut Out, rng: &mut Rng, st: &Sync) {
     can::verif_hooks::reset_cycles_balance();
     can::verif_hooks::take_sent_transactions();
     let count_before = can::with_state(|s| s.metrics.send_transaction_count);
-    let req = ic_btc_interface::SendTransactionRequest { network: c::net_in_req(req_net), transaction: bytes.clone() };
+    let req = ic_btc_interface::SendTransactionRequest { network: req_net_spelled, transaction: bytes.clone() };
     let mut f: Pin<Box<dyn Future<Output = Result<(), ic_btc_interface::SendTransactionError>>>> = Box::pin(can::send_transaction(req));
     let waker = futures::task::noop_waker();
     let mut cx = Context::from_waker(&waker);
@@ -500,7 +520,7 @@ fn send_tx(out: &mut Out, rng: &mut Rng, st: &Sync) {
     can::verif_hooks::reset_cycles_balance();
     out.count(&format!("sendtx:kind{}:{}", kind, result.split(' ').next().unwrap()));
     out.emit(
-        &format!("c sendtx {} {} {}", c::net_name(req_net), avail, if bytes.is_empty() { "-".to_string() } else { hex::encode(&bytes) }),
+        &format!("c sendtx {} {} {}", req_net_tok, avail, if bytes.is_empty() { "-".to_string() } else { hex::encode(&bytes) }),
         &format!("{} accepted={} counted={} forwarded={}", result, accepted, if result.starts_with("trap") { 0 } else { counted }, if result.starts_with("trap") { "none".to_string() } else { forwarded }),
     );
 }
@@ -579,17 +599,9 @@ pub fn run_case(out: &mut Out, rng: &mut Rng, thorough: bool, case_no: u64) {
             } else {
                 None
             };
-            let text = match &cfg { Some(cfgv) => format!("thr={}", cfgv.stability_threshold.unwrap()), None => "-".into() };
             // C09: everything a user can ask, before and after
             let addrs = st.case.world.addresses();
-            let before = observation_vector(&st, &addrs);
-            let r = c::guarded(|| { can::pre_upgrade(); can::post_upgrade(cfg); });
-            let after = observation_vector(&st, &addrs);
-            let same = match before.iter().zip(after.iter()).find(|(a, b)| a.1 != b.1) {
-                None => "same=1:-".to_string(),
-                Some((a, _)) => format!("same=0:{}", a.0),
-            };
-            out.emit(&format!("c upgrade {} {}", text, addrs.join(",")), &format!("{} | {} | {}", if r.is_ok() { "ok" } else { "trap" }, summary(), same));
+            upgrade_op(out, network, &addrs, cfg);
             out.count("upgrade");
             fp.push_str("u");
         } else if r < 82 {
